@@ -179,8 +179,17 @@ class Model:
     return sysd
 
   # ------------------------------------------------------- reference FK
-  def forward(self):
+  def forward(self, qd=None):
     """-> per link (pos, quat, ang, vel): world pose of the link frame and velocity of its origin."""
+    saved = self.qd
+    if qd is not None:
+      self.qd = asarr(qd)
+    try:
+      return self._forward()
+    finally:
+      self.qd = saved
+
+  def _forward(self):
     out = []
     d = 0
     for i, l in enumerate(self.links):
@@ -226,3 +235,155 @@ class Model:
           w = w + axis_w * qdv
       out.append((pos, quat, w, v))
     return out
+
+
+  # ------------------------------------------------------------ dynamics references
+  def add_inertia(self, prefix=''):
+    """Symbolic body inertias: mass, inertial frame (ipos, unit iquat), principal moments."""
+    n = self.n
+    self.mass = symarr(prefix + 'm', (n,))
+    self.ipos = symarr(prefix + 'ip', (n, 3))
+    self.iquat = np.stack([unit_quat(prefix + 'iq%d' % i) for i in range(n)])
+    self.imom = symarr(prefix + 'I', (n, 3))
+    self.armature = symarr(prefix + 'arm', (self.nv,))
+
+  def brax_inertia(self):
+    from braxlint.avn import Struct
+    imat = np.empty((self.n, 3, 3), dtype=object)
+    for i in range(self.n):
+      for a in range(3):
+        for b in range(3):
+          imat[i, a, b] = self.imom[i, a] if a == b else Rat.lift(0)
+    return Struct('Inertia', {'transform': Struct('Transform', {'pos': self.ipos, 'rot': self.iquat}, home='brax.base'),
+                              'i': imat, 'mass': self.mass}, home='brax.base')
+
+  def com_motion(self, qd):
+    """Per link: (world COM position, COM velocity, angular velocity, world inertia tensor) for velocities qd."""
+    out = []
+    for i, (pos, quat, w, v) in enumerate(self.forward(qd)):
+      r = rot(self.ipos[i], quat)
+      R = np.dot(rotmat(quat), rotmat(self.iquat[i]))
+      Iw = np.dot(np.dot(R, np.diag(self.imom[i]) if False else _diag(self.imom[i])), R.T)
+      out.append((pos + r, v + cross(w, r), w, Iw))
+    return out
+
+  def kinetic_energy_x2(self, qd):
+    """2T = sum m |v_com|^2 + w . I_world w (+ armature q_i'^2)."""
+    tot = Rat.lift(0)
+    for i, (c, vc, w, Iw) in enumerate(self.com_motion(qd)):
+      tot = tot + self.mass[i] * np.dot(vc, vc) + np.dot(w, np.dot(Iw, w))
+    qd = asarr(qd)
+    for d in range(self.nv):
+      tot = tot + self.armature[d] * qd[d] * qd[d]
+    return tot
+
+  def mass_matrix(self):
+    """M_ij by polarisation of the kinetic energy (exact: T is a quadratic form in qd)."""
+    nv = self.nv
+    unit = lambda *idx: asarr([1 if d in idx else 0 for d in range(nv)])
+    T1 = [self.kinetic_energy_x2(unit(i)) for i in range(nv)]
+    Mx = np.empty((nv, nv), dtype=object)
+    for i in range(nv):
+      Mx[i, i] = T1[i]
+      for j in range(i):
+        Mx[i, j] = Mx[j, i] = (self.kinetic_energy_x2(unit(i, j)) - T1[i] - T1[j]) / 2
+    return Mx
+
+  def gravity_force(self, g):
+    """Generalised gravity force tau_i = sum_k m_k g . d(com_k)/dq_i (the bias force at rest is -tau)."""
+    nv = self.nv
+    tau = []
+    for i in range(nv):
+      e = asarr([1 if d == i else 0 for d in range(nv)])
+      tau.append(sum((self.mass[k] * np.dot(asarr(g), vc) for k, (c, vc, w, Iw) in enumerate(self.com_motion(e))), Rat.lift(0)))
+    return np.array(tau, dtype=object)
+
+
+def _diag(v):
+  m = np.empty((3, 3), dtype=object)
+  for a in range(3):
+    for b in range(3):
+      m[a, b] = v[a] if a == b else Rat.lift(0)
+  return m
+
+
+# ----------------------------------------------------------------------------------------
+# velocity-product accelerations (all joint accelerations zero) and the bias force by projecting
+# Newton-Euler onto the joint-space Jacobians -- independent of any recursive formulation.
+def bias_accelerations(self):
+  """Per link (pos, quat, w, v_origin, alpha, a_origin) with qdd = 0; single-joint and free links."""
+  out = []
+  d = 0
+  z3 = asarr([0, 0, 0])
+  for i, l in enumerate(self.links):
+    p = l['parent']
+    if p < 0:
+      pp, pq, pw, pv, pal, pa = z3, asarr([1, 0, 0, 0]), z3, z3, z3, z3
+    else:
+      pp, pq, pw, pv, pal, pa = out[p]
+    if l['joints'] == ('f',):
+      qi = sum(7 if self.links[k]['joints'] == ('f',) else len(self.links[k]['joints']) for k in range(i))
+      pos, quat = self.q[qi:qi + 3], self.q[qi + 3:qi + 7]
+      w = rot(self.qd[d + 3:d + 6], quat)
+      out.append((pos, quat, w, self.qd[d:d + 3], cross(w, w) * 0, z3 * 1))
+      d += 6
+      continue
+    if len(l['joints']) != 1:
+      raise ValueError('bias reference supports single-joint links only')
+    k = l['joints'][0]
+    B = pp + rot(self.bpos[i], pq)                     # body origin before the joint, fixed in the parent
+    qb = qmul(pq, self.bquat[i])
+    rB = B - pp
+    vB = pv + cross(pw, rB)
+    aB = pa + cross(pal, rB) + cross(pw, cross(pw, rB))
+    axis_w = rot(self.axis[d], qb)
+    qv, qdv = self.q[self.q_index[d]], self.qd[d]
+    if k == 's':
+      disp = axis_w * qv
+      pos, quat = B + disp, qb
+      w, al = pw, pal
+      v = vB + cross(pw, disp) + axis_w * qdv
+      a = aB + cross(pal, disp) + cross(pw, cross(pw, disp)) + 2 * cross(pw, axis_w * qdv)
+    else:
+      s_, c_ = self.trig[d]
+      quat = qmul(qb, np.array([c_] + [x * s_ for x in self.axis[d]], dtype=object))
+      A = B + rot(self.anchor[i], qb)                  # anchor, fixed in the parent
+      rA = A - pp
+      vA = pv + cross(pw, rA)
+      aA = pa + cross(pal, rA) + cross(pw, cross(pw, rA))
+      wj = axis_w * qdv
+      w = pw + wj
+      al = pal + cross(pw, wj)
+      pos = A - rot(self.anchor[i], quat)
+      r = pos - A
+      v = vA + cross(w, r)
+      a = aA + cross(al, r) + cross(w, cross(w, r))
+    out.append((pos, quat, w, v, al, a))
+    d += 1
+  return out
+
+
+def bias_force(self, g):
+  """qfrc_bias = sum_k Jv_k^T m_k (a_com_k - g) + Jw_k^T (I_k alpha_k + w_k x I_k w_k)."""
+  acc = bias_accelerations(self)
+  nv = self.nv
+  jac = []
+  for i in range(nv):
+    e = asarr([1 if dd == i else 0 for dd in range(nv)])
+    jac.append(self.com_motion(e))
+  out = []
+  for i in range(nv):
+    tot = Rat.lift(0)
+    for k, (pos, quat, w, v, al, a) in enumerate(acc):
+      rc = rot(self.ipos[k], quat)
+      a_c = a + cross(al, rc) + cross(w, cross(w, rc))
+      R = np.dot(rotmat(quat), rotmat(self.iquat[k]))
+      Iw = np.dot(np.dot(R, _diag(self.imom[k])), R.T)
+      Jv, Jw = jac[i][k][1], jac[i][k][2]
+      tot = tot + self.mass[k] * np.dot(a_c - asarr(g), Jv) + np.dot(np.dot(Iw, al) + cross(w, np.dot(Iw, w)), Jw)
+    out.append(tot)
+  return np.array(out, dtype=object)
+
+
+Model.bias_accelerations = bias_accelerations
+Model.bias_force = bias_force
